@@ -84,3 +84,22 @@ func RSASPKI(n *big.Int, e int) []byte {
 	pk := der.Seq(der.Int(n), der.IntFromInt64(int64(e)))
 	return der.Seq(der.Seq(der.OID("1.2.840.113549.1.1.1"), der.Null()), der.BitString(pk, 0))
 }
+
+// DummyCardSecurity wraps SecurityInfos in a structurally valid CMS SignedData
+// (ContentInfo) whose signature is NOT valid.  It is only for protocol checks
+// that parse EF.CardSecurity (PACE-CAM) without running passive authentication;
+// genuine signed objects come from the issuer package.
+func DummyCardSecurity(secInfos []byte) []byte {
+	sha256 := der.Seq(der.OID("2.16.840.1.101.3.4.2.1"))
+	encap := der.Seq(der.OID(OidCardSecInfos), der.Explicit(0, der.OctetString(secInfos)))
+	name := der.Seq(der.Set(der.Seq(der.OID("2.5.4.6"), der.Printable("UT"))))
+	signer := der.Seq(
+		der.IntFromInt64(1),
+		der.Seq(name, der.IntFromInt64(1)),
+		sha256,
+		der.Seq(der.OID("1.2.840.10045.4.3.2")),
+		der.OctetString([]byte{0x30, 0x06, 0x02, 0x01, 0x01, 0x02, 0x01, 0x01}),
+	)
+	sd := der.Seq(der.IntFromInt64(3), der.Set(sha256), encap, der.Set(signer))
+	return der.Seq(der.OID("1.2.840.113549.1.7.2"), der.Explicit(0, sd))
+}
